@@ -223,6 +223,22 @@ def cpioReadLinks : List (Nat × Path × Nat) → List Entry → List Entry
 def cpioArchive (st : Lnk.Strategy) (es : List Entry) : List Entry :=
   cpioReadLinks [] ((linkify st es).map Entry.cpioWritten)
 
+/-- xar writer (archive_write_set_format_xar.c), link handling: only a regular file can be
+written as `<type link="...">`.  A later name of a symlink or fifo keeps its own type; for a
+symlink the hard-link name has by then replaced the target (one field of the entry holds both,
+`archive_entry_copy_hardlink` in `archive_entry_linkify`). -/
+def Entry.xarWritten (e : Entry) : Entry :=
+  match e.hardlink with
+  | none => e
+  | some q =>
+    if e.ftype == .reg then e else
+    { e with hardlink := none, sizeSet := true,
+             payload := match e.payload with
+               | .target _ => .target (joined q)
+               | x => x }
+
+def xarArchive (es : List Entry) : List Entry := (linkify .tar es).map Entry.xarWritten
+
 /-- tar/read.c `read_archive` in list mode prints `archive_entry_pathname` of every header. -/
 def listing (es : List Entry) : List Path := es.map (·.path)
 
